@@ -193,11 +193,12 @@ func (t *connectTransaction) Connack(mqConnack *mqPkts.ConnackPacket) error {
 
 	// Must be set before snSend to avoid race condition in tests.
 	t.handler.setState(util.StateActive)
+	// The exchange is over before the client learns about it: the packet it
+	// sends in reaction to the CONNACK must not find it in progress.
+	t.Success()
 	if err := t.SendConnack(snPkts1.RC_ACCEPTED); err != nil {
-		t.Fail(err)
 		return err
 	}
-	t.Success()
 	return nil
 }
 
